@@ -124,13 +124,15 @@ register("C06", "other",
          "Partial. Proved in Lean: on the IC10 machine model a jal stores the line after the call in ra, `j ra` continues at the line held in ra, hence a return whose ra still holds what the call stored resumes "
          "right after the call (call_return_roundtrip — the reason why preserving ra across inner calls suffices at any nesting depth); the model of add_ra_instructions puts `push ra` directly after the function "
          "label and `pop ra` directly after the end label in the fixed-slot convention and leaves functions without calls / returns unchanged (addRaFixed_shape, addRa_unchanged); the fixed argument / result "
-         "slots are pairwise distinct stack cells (slots_distinct, over the regenerated RV). The model addRa (both conventions) is tied to the real add_ra_instructions by exact correspondence on the real function "
+         "slots are pairwise distinct stack cells (slots_distinct, over the regenerated RV). Leaf functions: a body accepted by the static check checkLeaf (no jal, ra never a destination, every line is `j ra` or "
+         "has its static successors inside the body) can only be left through `j ra` to the line ra held on entry, so a jal to it comes back to the line after the jal (leaf_returns, call_leaf_returns — no "
+         "dynamic hypothesis); check-leaf runs checkLeaf on every function body of every real output and a rejected call-free body is a violation. The model addRa (both conventions) is tied to the real add_ra_instructions by exact correspondence on the real function "
          "bodies of every generated program and on synthetic bodies. NOT a theorem: that every emitted program keeps the discipline — decided per execution by the shadow call stack of the machine run (every "
          "executed `j ra` goes to the instruction after the call being served; sp differs from its value at the call by exactly what the convention prescribes) together with the reference semantics "
          "(arguments in order, result delivered), under fixed-slot / push-pop × tail-call, arities 0-3, early returns, loops ending in returns, nesting to depth 4, and a family of suffix-related function names "
          "with inlining. Known findings F-C06-a, F-C02-a/b are avoided by the generator.",
-         TB + "PV.IC10 / PV.Src are trusted specifications; call discipline of real outputs is monitored, not proved.",
-         "Lean 4 proofs (machine call/return lemmas, ra-bracket shape) + model/code correspondence + shadow-call-stack execution of real outputs", "DESIGN.md §4 C06")
+         TB + "PV.IC10 / PV.Src are trusted specifications; call discipline of functions that call others is monitored per execution, not proved (leaf functions: proved via checkLeaf per real body).",
+         "Lean 4 proofs (machine call/return lemmas, ra-bracket shape, static leaf-function return theorem with its checker run on real outputs) + model/code correspondence + shadow-call-stack execution of real outputs", "DESIGN.md §4 C06")
 
 register("C02", "other",
          "Partial. Proved in Lean (corollaries of the model theorems of C05/C08/C09/C15): text appended after blanks and '#' is invisible to the loader (all comment options), every symbolic token denotes the same "
